@@ -48,9 +48,12 @@ def ctor_calls(cid, ds):
     return [{"op": "custom", "as": cid, "descs": descs, "families": fams}]
 
 
-def shown_ids(gres):
+def shown_ids(gres, prefix=""):
+    """(family name without the registry's prefix, constant-label value) of every gathered sample"""
     ids = set()
     for fam in gres["ok"]:
+        if prefix:
+            fam = dict(fam, name=fam["name"][len(prefix) + 1:] if fam["name"].startswith(prefix + "_") else "<unprefixed>" + fam["name"])
         for m in fam["metrics"]:
             k = "-"
             for n, v in m["labels"]:
@@ -107,14 +110,17 @@ def run(ctx):
             for e in b:
                 if e["c"] not in used:
                     used.append(e["c"])
-            calls = [{"op": "registry", "as": "r", "custom": True, "labels": [["k", "common"]]} if commons[i] else {"op": "registry", "as": "r"}]
+            # every third plain history runs in a registry with a NAME PREFIX (admission is by the collectors' own names and dimensions,
+            # whatever the registry adds to the names it exposes)
+            prefix = "px" if not commons[i] and (i + ctx.seed) % 3 == 0 else ""
+            calls = [{"op": "registry", "as": "r", "custom": True, "labels": [["k", "common"]]} if commons[i] else ({"op": "registry", "as": "r", "custom": True, "prefix": prefix} if prefix else {"op": "registry", "as": "r"})]
             for c in used:
                 calls += ctor_calls(c, univ[c])
             pre = len(calls)
             for k, e in enumerate(b):
                 calls.append({"op": "register" if e["op"] == "reg" else "unregister", "reg": "r", "obj": e["c"], "reversed": (k + i) % 2 == 1})
                 calls.append({"op": "gather", "reg": "r"})
-            jobs.append({"id": i, "calls": calls, "pre": pre})
+            jobs.append({"id": i, "calls": calls, "pre": pre, "prefix": prefix})
         res = run_api(ctx, exe, [{"id": j["id"], "calls": j["calls"]} for j in jobs], "replay%d" % off)
         for j, b in zip(jobs, chunk):
             rs = res[j["id"]]
@@ -131,7 +137,7 @@ def run(ctx):
                     good = False
                     gids = None
                 else:
-                    gids = shown_ids(gg)
+                    gids = shown_ids(gg, j["prefix"])
                     if gids != expected_ids(univ, e["reg"]):
                         good = False
                 if not good:
@@ -327,12 +333,13 @@ def replay(path):
         return regconc.replay(rp)
     if rp["kind"] == "history":
         res = run_api(ctx, exe, [{"id": 0, "calls": rp["calls"]}], "replay")[0]
+        prefix = rp["calls"][0].get("prefix") or ""
         for c, r in zip(rp["calls"], res):
             if c["op"] in ("register", "unregister", "gather"):
-                print("  ", c["op"], c.get("obj", ""), "->", res_class(r) if c["op"] != "gather" else sorted(shown_ids(r)))
+                print("  ", c["op"], c.get("obj", ""), "->", res_class(r) if c["op"] != "gather" else sorted(shown_ids(r, prefix)))
         e = rp["history"][-1]
         got = res_class(res[-2])
-        gids = shown_ids(res[-1])
+        gids = shown_ids(res[-1], prefix)
         good = ((got == e["res"]) or (e["res"] == "Err" and got in ("Err", "AlreadyReg"))) and gids == expected_ids(univ, e["reg"])
         print("spec expects", e["res"], sorted(e["reg"]))
         print("verdict:", "conforms" if good else "violates Registry spec")
